@@ -1,6 +1,7 @@
 package main
 
 import (
+	"bytes"
 	"encoding/json"
 	"fmt"
 	"reflect"
@@ -191,12 +192,15 @@ func collectPaths(v interface{}, cur jpath, out *[]jpath) {
 func deepCopy(v interface{}) interface{} {
 	b, _ := json.Marshal(v)
 	var out interface{}
-	json.Unmarshal(b, &out)
+	d := json.NewDecoder(bytes.NewReader(b))
+	d.UseNumber() // keep integer literals exact
+	d.Decode(&out)
 	return out
 }
 
 // apply replaces / drops / duplicates the node at path
 func mutateAt(root interface{}, path jpath, how string, repl interface{}) interface{} {
+	repl = deepCopy(repl) // replacement literals are shared between mutations: never alias them into a tree (a second mutation could tie a knot)
 	if len(path) == 0 {
 		if how == "replace" {
 			return repl
@@ -285,7 +289,10 @@ func runC11(c *Ctx) {
 		}
 	}
 	replacements := []interface{}{nil, 7.0, -1.5, "str", "", []interface{}{}, map[string]interface{}{}, []interface{}{nil},
-		map[string]interface{}{"k": nil}, true, []interface{}{map[string]interface{}{}}, 1e300}
+		map[string]interface{}{"k": nil}, true, []interface{}{map[string]interface{}{}}, 1e300,
+		// exact integer literals at the edges of the Go integer types (a float64 cannot spell them)
+		json.Number("18446744073709551615"), json.Number("9223372036854775808"), json.Number("9223372036854775807"),
+		json.Number("-9223372036854775808"), json.Number("4294967296"), json.Number("256"), json.Number("-1"), json.Number("0")}
 	basesPerKind, sampleEvery := 3, 1
 	if c.thorough() {
 		basesPerKind, sampleEvery = 12, 1
@@ -293,8 +300,11 @@ func runC11(c *Ctx) {
 	for _, kind := range kindNames {
 		for b := 0; b < basesPerKind; b++ {
 			cl, s := g.newClaims(kind)
-			if ac, ok := cl.(*jwt.AccountClaims); ok && len(ac.Exports) < 2 {
-				ac.Exports.Add(&jwt.Export{Subject: "e1.>", Type: jwt.Stream}, &jwt.Export{Subject: "e2", Type: jwt.Service, Latency: &jwt.ServiceLatency{Sampling: 5, Results: "r"}})
+			if ac, ok := cl.(*jwt.AccountClaims); ok {
+				ac.Exports.Add(&jwt.Export{Subject: "e1.>", Type: jwt.Stream}, &jwt.Export{Subject: "e2", Type: jwt.Service, Latency: &jwt.ServiceLatency{Sampling: 5, Results: "r"}},
+					&jwt.Export{Subject: "e3.*.x", Type: jwt.Stream, AccountTokenPosition: 2, ResponseThreshold: 5})
+				ac.Mappings = jwt.Mapping{"m.src": []jwt.WeightedMapping{{Subject: "m.t", Weight: 50, Cluster: "c"}}}
+				ac.Limits.JetStreamTieredLimits = jwt.JetStreamTieredLimits{"R1": jwt.JetStreamLimits{DiskStorage: 5}}
 				ac.Imports.Add(&jwt.Import{Subject: "i1", Account: "A", Type: jwt.Stream}, &jwt.Import{Subject: "i2", Account: "A", Type: jwt.Service})
 				ac.Limits.Exports, ac.Limits.WildcardExports = 10, false
 			}
